@@ -1496,6 +1496,14 @@ def np_isclose(interp, a, b, rtol=Fraction('1e-5'), atol=Fraction('1e-8'),
     return one(a, b)
 
 
+def np_allclose(interp, a, b, rtol=Fraction('1e-5'), atol=Fraction('1e-8'), **kw):
+    """all(|a - b| <= atol + rtol |b|) with numpy broadcasting of a scalar"""
+    r = np_isclose(interp, a, b, rtol, atol)
+    if isinstance(r, NDArr):
+        return interp.ops.all_(_flatten(r.data))
+    return r
+
+
 def np_where(interp, cond, x=None, y=None):
     if x is None:
         return np_where1(interp, cond)
@@ -1995,7 +2003,7 @@ def external_modules(interp):
         'cosh': B('cosh', _elementwise(_cosh)),
         'abs': B('abs', py_abs), 'absolute': B('absolute', py_abs),
         'squeeze': B('squeeze', np_squeeze),
-        'isclose': B('isclose', np_isclose),
+        'isclose': B('isclose', np_isclose), 'allclose': B('allclose', np_allclose),
         'argmax': B('argmax', np_argmax), 'argmin': B('argmin', np_argmin),
         'nanargmin': B('nanargmin', np_argmin),
         'nanargmax': B('nanargmax', np_argmax),
